@@ -154,3 +154,86 @@ PLAN["C10"] = dict(functions=ITER_FUNCS, bounds=ITER_BOUNDS, outside="raw draws 
 PLAN["C17"] = dict(functions=ITER_FUNCS + ["hep::vegas_icdf<T>"], bounds=ITER_BOUNDS, outside="larger sizes; rounding in the VEGAS coordinate",
                    assumptions=COMMON_ASSUME,
                    jobs=ITERATION_JOBS + only(VEGAS_PDF_JOBS, lambda j: j["cfg"]["ob"] == 0) + only(KERNEL_JOBS, lambda j: j["cfg"]["ob"] in (1, 2)))
+
+# ---------------------------------------------------------------------------------------------
+# driver level (real drivers + real checkpoint classes + text round trips)
+def drv(ob, alg, **kw):
+    c = dict(ob=ob, alg=alg)
+    c.update(kw)
+    return c
+
+
+DRIVER_FUNCS = ["hep::plain", "hep::vegas", "hep::multi_channel", "hep::chkpt<R>", "hep::chkpt_with_rng<E,C>",
+                "hep::vegas_chkpt<T>", "hep::multi_channel_chkpt<T>", "hep::make_*_chkpt(std::istream&)",
+                "hep::mc_result<T>::serialize/(istream)", "hep::plain_result<T>::serialize/(istream)",
+                "hep::vegas_result<T>::serialize/(istream)", "hep::multi_channel_result<T>::serialize/(istream)",
+                "hep::distribution_parameters<T>::serialize/(istream)", "hep::distribution_result<T>::serialize/(istream)",
+                "hep::vegas_pdf<T>::serialize/(istream)", "hep::vegas_refine_pdf<T>", "hep::multi_channel_refine_weights<T>"] + ITER_FUNCS
+DRIVER_BOUNDS = {"quick": "n<=2 iterations (every subset of the interruption points incl. before the first iteration), 1-2 calls per iteration "
+                          "(unequal), d=1, B=2 bins, C=2 channels, 0-1 distribution with 2 bins, names {'x','a b','',' lead','trail ','0 1'}; "
+                          "numeric_limits flavours float/double/long double; default and user grid / weights (every zero pattern)",
+                 "thorough": "n<=3 iterations, B<=3, C<=3, d<=2"}
+DRIVER_ASSUME = COMMON_ASSUME + [
+    "a real number is written as an opaque token and read back as the same value: formatting/parsing one finite number by libstdc++/glibc "
+    "(vfprintf/strtod) with scientific notation and max_digits10 digits is assumed to round-trip; the harness checks that every number IS "
+    "written with scientific notation and precision >= max_digits10-1 of the numeric type",
+    "the random engine is a position counting stub whose text form is its position (std engines' own operator<< / >> are not encoded)"]
+
+RESUME_Q = []
+for alg in (0, 1, 2):
+    RESUME_Q.append(S("h_driver", drv(0, alg, n=2, cp=1), ["resume.final_text_identical", "final_checkpoint.read_back"]))
+RESUME_Q += [
+    S("h_driver", drv(0, 1, n=2, cp=2, user=1), ["resume.final_text_identical"]),
+    S("h_driver", drv(0, 2, n=2, cp=2, user=1), ["resume.final_text_identical"]),
+    S("h_driver@24", drv(0, 1, n=2, cp=1, user=1), ["resume.final_text_identical"]),
+    S("h_driver@64", drv(0, 1, n=2, cp=1, user=1), ["resume.final_text_identical"]),
+    S("h_driver@24", drv(0, 2, n=1, cp=1, user=1), ["resume.final_text_identical"]),
+    S("h_driver@64", drv(0, 2, n=1, cp=1, user=1), ["resume.final_text_identical"]),
+    S("h_driver@64", drv(0, 0, n=2, cp=1, dist=1, fk=1, name=1), ["resume.final_text_identical"]),
+]
+for nm in range(6):
+    RESUME_Q.append(S("h_driver", drv(0, 0, n=2, cp=1, dist=1, fk=1, name=nm), ["resume.final_text_identical"]))
+RESUME_Q.append(S("h_driver", drv(0, 1, n=1, cp=1, dist=1, fk=1, name=2), ["resume.final_text_identical"]))
+RESUME_Q.append(S("h_driver", drv(0, 2, n=1, cp=1, dist=1, fk=1, name=3), ["resume.final_text_identical"]))
+RESUME_T = [
+    S("h_driver", drv(0, 0, n=3, cp=1), ["resume.final_text_identical"], tiers=T),
+    S("h_driver", drv(0, 1, n=3, cp=1), ["resume.final_text_identical"], tiers=T),
+    S("h_driver", drv(0, 2, n=3, cp=0), ["resume.final_text_identical"], tiers=T),
+    S("h_driver", drv(0, 1, n=2, cp=1, B=3, user=1), ["resume.final_text_identical"], tiers=T),
+    S("h_driver", drv(0, 1, n=2, cp=0, d=2, user=1), ["resume.final_text_identical"], tiers=T),
+    S("h_driver", drv(0, 2, n=2, cp=0, C=3, user=1), ["resume.final_text_identical"], tiers=T),
+    S("h_driver@24", drv(0, 2, n=2, cp=1, user=1), ["resume.final_text_identical"], tiers=T),
+    S("h_driver@64", drv(0, 2, n=2, cp=1, user=1), ["resume.final_text_identical"], tiers=T),
+]
+RESUME_JOBS = RESUME_Q + RESUME_T
+
+PLAN["C03"] = dict(functions=DRIVER_FUNCS, bounds=DRIVER_BOUNDS,
+                   outside="more iterations / calls / bins / channels; std random engines; bitwise round trip of a single number through "
+                           "libstdc++ formatting; the file written by the built-in callback uses the same serialize() (see C20)",
+                   assumptions=DRIVER_ASSUME, jobs=RESUME_JOBS)
+PLAN["C05"] = dict(functions=DRIVER_FUNCS, bounds=DRIVER_BOUNDS, level="other",
+                   explanation="Bounded symbolic execution of the real serialize()/deserialising constructors over all values of every real field "
+                               "(opaque tokens): decides dropped / swapped / shifted fields, conditional sections, name parsing and the precision "
+                               "requested for each number. It does NOT decide that libstdc++ prints and parses a single float/double/long double "
+                               "bit for bit, nor the std engines' own stream operators; hence level 'other'.",
+                   outside="bitwise round trip of one number through libstdc++ (denormals, -0, largest finite); std engines",
+                   assumptions=DRIVER_ASSUME, jobs=RESUME_JOBS)
+
+ROLLBACK_JOBS = []
+for alg in (0, 1, 2):
+    for text in (0, 1):
+        ROLLBACK_JOBS.append(S("h_driver", drv(3, alg, n=2, cp=1, text=text), ["rollback.serialises_like", "rollback.to_n_changes_nothing",
+                                                                                 "rollback.beyond_the_last", "rollback.resuming_reproduces"]))
+ROLLBACK_JOBS += [
+    S("h_driver", drv(3, 1, n=2, cp=2, text=1, user=1), ["rollback.serialises_like"]),
+    S("h_driver", drv(3, 2, n=2, cp=2, text=1, user=1), ["rollback.serialises_like"]),
+    S("h_driver", drv(3, 0, n=3, cp=1, text=1), ["rollback.serialises_like"], tiers=T),
+    S("h_driver", drv(3, 1, n=3, cp=1, text=1, user=1), ["rollback.serialises_like"], tiers=T),
+    S("h_driver", drv(3, 2, n=3, cp=0, text=1, user=1), ["rollback.serialises_like"], tiers=T),
+    S("h_driver", drv(3, 2, n=3, cp=0, text=0), ["rollback.serialises_like"], tiers=T),
+]
+PLAN["C15"] = dict(functions=DRIVER_FUNCS + ["hep::chkpt<R>::rollback", "hep::chkpt_with_rng<E,C>::rollback", "hep::vegas_chkpt<T>::rollback",
+                                             "hep::multi_channel_chkpt<T>::rollback"],
+                   bounds={"quick": "histories run(2); [text round trip]; rollback(k) for every k in 0..3; resume; all three integrators, default and "
+                                    "user grid / weights with every zero pattern", "thorough": "run(3), k in 0..4"},
+                   outside="longer histories; std engines", assumptions=DRIVER_ASSUME, jobs=ROLLBACK_JOBS)
